@@ -49,6 +49,7 @@ type FuncContract struct {
 	File      string
 	Ghosts    []string
 	SafetyOff map[string]string // safety class -> reason (not claimed)
+	Unclaimed map[string]string // obligation class (e.g. "post:foo") -> reason it is not claimed
 	Alphabet  string            // for bounded search
 	MaxLen    int
 }
@@ -72,6 +73,8 @@ type Lemma struct {
 	IndVar   string // induction variable
 	IndDir   string // "from" (IH at v-1 when v > bound) or "upto" (IH at v+1 when v < bound)
 	IndBound *CExpr
+	Measure  *CExpr   // decreases clause for explicit induction hypotheses
+	IHs      []*CExpr // explicit induction-hypothesis instances: applications of this lemma
 	Trigger  *CExpr   // auto-instantiation trigger (an application of a spec function over the params)
 	Uses     []*CExpr // other lemma instances to assume in the proof
 	Serves   []string
@@ -89,7 +92,7 @@ type Contracts struct {
 
 var clauseKeywords = map[string]bool{"requires": true, "ensures": true, "loop": true, "modifies": true, "serves": true,
 	"use": true, "inline": true, "trusted": true, "status:": true, "pure": true, "induction": true, "trigger": true,
-	"nosafety": true, "alphabet": true, "maxlen": true}
+	"nosafety": true, "alphabet": true, "maxlen": true, "decreases": true, "ih": true, "unclaimed": true}
 
 func loadContracts(dirs map[string]string) (*Contracts, error) {
 	cs := &Contracts{Funcs: map[string]*FuncContract{}, Specs: map[string]*SpecFunc{}, Lemmas: map[string]*Lemma{}}
@@ -235,7 +238,7 @@ func mkClause(file string, line int, label, text string) (Clause, error) {
 
 func (cs *Contracts) parseFunc(pkg, file string, e *rawEntry) error {
 	key := strings.TrimSpace(strings.TrimPrefix(e.head, "func"))
-	fc := &FuncContract{Key: key, Pkg: pkg, Loops: map[int]*LoopSpec{}, Line: e.line, File: filepath.Base(file), SafetyOff: map[string]string{}}
+	fc := &FuncContract{Key: key, Pkg: pkg, Loops: map[int]*LoopSpec{}, Line: e.line, File: filepath.Base(file), SafetyOff: map[string]string{}, Unclaimed: map[string]string{}}
 	for _, c := range e.clauses {
 		kw := strings.Fields(c.text)[0]
 		if j := strings.Index(kw, "["); j > 0 {
@@ -337,6 +340,12 @@ func (cs *Contracts) parseFunc(pkg, file string, e *rawEntry) error {
 				return fmt.Errorf("line %d: nosafety needs a class", c.line)
 			}
 			fc.SafetyOff[f[1]] = strings.Join(f[2:], " ")
+		case "unclaimed":
+			f := strings.Fields(c.text)
+			if len(f) < 3 {
+				return fmt.Errorf("line %d: unclaimed CLASS reason", c.line)
+			}
+			fc.Unclaimed[f[1]] = strings.Join(f[2:], " ")
 		case "alphabet":
 			s, err := strconv.Unquote(strings.TrimSpace(strings.TrimPrefix(c.text, "alphabet")))
 			if err != nil {
@@ -478,6 +487,20 @@ func (cs *Contracts) parseLemma(pkg, file string, e *rawEntry) error {
 			if err != nil {
 				return err
 			}
+		case "decreases":
+			lm.Measure, err = parseCExpr(strings.TrimSpace(strings.TrimPrefix(c.text, "decreases")))
+			if err != nil {
+				return err
+			}
+		case "ih":
+			ex, err := parseCExpr(strings.TrimSpace(strings.TrimPrefix(c.text, "ih")))
+			if err != nil {
+				return err
+			}
+			if ex.Kind != "call" || ex.Str != lm.Name {
+				return fmt.Errorf("line %d: ih must be an application of %s", c.line, lm.Name)
+			}
+			lm.IHs = append(lm.IHs, ex)
 		case "use":
 			ex, err := parseCExpr(strings.TrimSpace(strings.TrimPrefix(c.text, "use")))
 			if err != nil {
